@@ -49,7 +49,7 @@ def classify_exc(e):
             isinstance(e, mexc.MosRoMgrException), innermost_site(e.__traceback__))
 
 
-def run_step(ro_xml, msg_xml, ro_obj=None, msg_obj=None):
+def run_step(ro_xml, msg_xml, ro_obj=None, msg_obj=None, filt='always'):
     """Parse both documents with the library and perform `ro += msg`.
     ro_obj / msg_obj allow re-use of live objects (histories)."""
     o = Obs()
@@ -60,7 +60,7 @@ def run_step(ro_xml, msg_xml, ro_obj=None, msg_obj=None):
     o.after = None
     o.cls_name = None
     with warnings.catch_warnings(record=True) as rec:
-        warnings.simplefilter('always')
+        warnings.simplefilter(filt)
         try:
             ro = ro_obj if ro_obj is not None else RunningOrder.from_string(ro_xml)
             msg = msg_obj if msg_obj is not None else MosFile.from_string(msg_xml)
